@@ -252,29 +252,79 @@ def run_case(case):
                        "detail": f"restricted {L['sparse_states'] + L['sparse_choices']} dense {L['dense_states']}|{L['dense_choices']}|{L['cont_states']} values shape {shape}: implementation shape {list(res.shape)} {got[:8]}, model axes {o['axes']} shape {o['out']['shape']} {o['out']['data'][:8]}", "key": "C18:discrete"})
         out["sample"] = {"values_shape": shape, "choice_axes_model": o["axes"], "result_shape": list(res.shape)}
         return out
-    # fused producer
+    # fused producer: the array handed to `argmax` is computed inside the same jitted function and is NOT returned from it
+    # (returning it would force XLA to materialise it once, which hides a double evaluation)
+    kind = r.choice(["muladd", "log", "interp", "grid2", "grid2", "grid2"])
+    out["sig"] = f"fused kind={kind}"
+    if kind == "grid2":
+        # the shape of the continuous problem of lcm: rows = states, last two axes = product of two choice grids, the
+        # objective is transcendental in the grid values and the mask is a budget constraint
+        n = r.randint(2, 12)
+        nc, ng = r.choice([(4, 4), (5, 4), (9, 4), (3, 4), (6, 4), (4, 8), (7, 5), (3, 3), (8, 4), (2, 4)])
+        cg = np.linspace(0.5, r.choice([6.0, 9.0, 12.0]), nc)
+        gg = np.linspace(0.0, r.choice([3.0, 4.5]), ng)
+        wv = np.array([r.uniform(1.0, 14.0) for _ in range(n)])
+        ukind = r.choice(["loglog", "loglin", "sqrt"])
+
+        def obj(xp, c, g):
+            if ukind == "loglog":
+                return xp.log(c) + 0.6 * xp.log(1.0 + g)
+            if ukind == "loglin":
+                return xp.log(c) + 0.6 * g
+            return xp.sqrt(c) + 0.6 * xp.sqrt(g)
+
+        @jax.jit
+        def fused2(wv, cg, gg):
+            def one(w_):
+                def cell(c, g):
+                    return obj(jnp, c, g), c + g <= w_
+                u_, f_ = jax.vmap(jax.vmap(cell, in_axes=(None, 0)), in_axes=(0, None))(cg, gg)
+                return argmax(u_, where=f_, initial=-jnp.inf)
+            return jax.vmap(one)(wv)
+
+        try:
+            ix, mx = (np.asarray(v) for v in fused2(jnp.asarray(wv), jnp.asarray(cg), jnp.asarray(gg)))
+        except Exception as e:  # noqa: BLE001
+            vs.append({"clause": "argmax evaluates inside a jitted computation", "detail": f"{impl_site(e)}: {str(e)[:200]}", "key": "C18:eval"})
+            return out
+        out["evals"] = n
+        for i_ in range(n):
+            uu = obj(np, cg[:, None], gg[None, :] + 0 * cg[:, None])
+            ff = (cg[:, None] + gg[None, :]) <= wv[i_]
+            if not ff.any():
+                continue
+            best = uu[ff].max()
+            j_ = int(ix[i_])
+            cj, gj = divmod(j_, ng)
+            tol = 1e-9 * max(1.0, abs(best))
+            if not ff[cj, gj] or abs(uu[cj, gj] - best) > tol or abs(mx[i_] - best) > tol:
+                vs.append({"clause": "inside a jitted computation the returned position is an unmasked element attaining the masked maximum",
+                           "detail": f"grid2 {ukind} grids {nc}x{ng} (c in [0.5, {cg[-1]}], g in [0, {gg[-1]}]) budget {wv[i_]!r}: position {j_} = (c={cg[cj]}, g={gg[gj]}) feasible={bool(ff[cj, gj])} objective {uu[cj, gj]!r}, masked maximum {best!r}, reported maximum {float(mx[i_])!r}",
+                           "key": "C18:fused"})
+                break
+        out["sample"] = {"fused": kind, "rows": n, "grids": [nc, ng], "utility": ukind}
+        return out
     n, m = r.randint(2, 6), r.randint(3, 40)
     x = np.array([[r.uniform(0.1, 5) for _ in range(m)] for _ in range(n)])
     w = np.array([r.uniform(-2, 2) for _ in range(m)])
-    kind = r.choice(["muladd", "log", "interp"])
     mask = np.array([[r.random() < 0.7 for _ in range(m)] for _ in range(n)])
-    out["sig"] = f"fused kind={kind}"
+
+    def producer(xp, x, w):
+        if kind == "muladd":
+            return x * w + 0.95 * (x * x - w)
+        if kind == "log":
+            return xp.log(x) + 0.95 * xp.log(x * 1.3 + w * w)
+        from lcm.ndimage import map_coordinates
+
+        return jnp.log(x) + 0.95 * map_coordinates(jnp.asarray(w), [x * ((m - 1) / 5.0)])
 
     @jax.jit
     def fused(x, w, mask):
-        if kind == "muladd":
-            u = x * w + 0.95 * (x * x - w)
-        elif kind == "log":
-            u = jnp.log(x) + 0.95 * jnp.log(x * 1.3 + w * w)
-        else:
-            from lcm.ndimage import map_coordinates
-
-            u = jnp.log(x) + 0.95 * map_coordinates(jnp.asarray(w), [x * ((m - 1) / 5.0)])
-        ix, mx = argmax(u, axis=1, where=mask, initial=-jnp.inf)
-        return ix, mx, u
+        return argmax(producer(jnp, x, w), axis=1, where=mask, initial=-jnp.inf)
 
     try:
-        ix, mx, u = (np.asarray(v) for v in fused(jnp.asarray(x), jnp.asarray(w), jnp.asarray(mask)))
+        ix, mx = (np.asarray(v) for v in fused(jnp.asarray(x), jnp.asarray(w), jnp.asarray(mask)))
+        u = np.asarray(producer(jnp, jnp.asarray(x), jnp.asarray(w)))     # evaluated on its own, for the oracle only
     except Exception as e:  # noqa: BLE001
         vs.append({"clause": "argmax evaluates inside a jitted computation", "detail": f"{impl_site(e)}: {str(e)[:200]}", "key": "C18:eval"})
         return out
@@ -284,7 +334,8 @@ def run_case(case):
             continue
         j = int(ix[i])
         best = u[i][mask[i]].max()
-        if not mask[i][j] or abs(u[i][j] - best) > 1e-12 * max(1.0, abs(best)) or abs(mx[i] - best) > 1e-12 * max(1.0, abs(best)):
+        tol = 1e-9 * max(1.0, abs(best))
+        if not mask[i][j] or abs(u[i][j] - best) > tol or abs(mx[i] - best) > tol:
             vs.append({"clause": "inside a jitted computation the returned position is an unmasked element attaining the masked maximum", "detail": f"{kind}: row {i}: position {j} masked={not mask[i][j]} value {u[i][j]} max {best} reported {mx[i]}", "key": "C18:fused"})
             break
     out["sample"] = {"fused": kind, "rows": n, "row_length": m}
